@@ -29,14 +29,14 @@ constexpr auto rbegin(Container const& c) -> decltype(c.rbegin())
 template <typename T, size_t N>
 constexpr auto rbegin(T (&array)[N]) -> reverse_iterator<T*>
 {
-    return reverse_iterator<T*>(end(array));
+    return reverse_iterator<T*>(etl::end(array));
 }
 
 /// \ingroup iterator
 template <typename Container>
-constexpr auto crbegin(Container const& c) -> decltype(rbegin(c))
+constexpr auto crbegin(Container const& c) -> decltype(etl::rbegin(c))
 {
-    return rbegin(c);
+    return etl::rbegin(c);
 }
 
 } // namespace etl
